@@ -19,12 +19,7 @@ NOTES = ("Every check is solver-based (DESIGN.md): Engine K = Kani/CBMC over the
          "counterexample that did not reproduce natively); it is never reported as success or as a violation. Known findings: known_findings.txt.")
 
 NOT_APPLICABLE = {
-    "C01": "under construction",
     "C07": "not built yet",
-    "C09": "not built yet",
-    "C10": "harnesses under construction (not yet registered)",
-    "C12": "harnesses under construction (not yet registered)",
-    "C15": "under construction",
     "C16": "not built yet",
     "C17": "not built yet",
     "C19": "harnesses under construction (not yet registered)",
@@ -130,6 +125,12 @@ PROPS = {
         "alphas in [0,1] that every component equals the W3C value (1e-9), stays in range, that opaque inputs reduce to B(Cb,Cs), "
         "that the commutative modes/operators are symmetric, the over identities, and the premultiplication round trip.",
         "Trusted: z3; the W3C transcription (symx/src/reference/w3c_blend.rs). Rounding of individual float operations is outside the claim."),
+    "C09": sprop(
+        "Symbolic execution of the real colour-difference code (Delta E, improved Delta E, HyAB, Euclidean, Lch forms, WCAG contrast, "
+        "CIEDE2000): z3 decides for ALL pairs of colours in the stated boxes equality with the closed forms / the Sharma reference, "
+        "symmetry, non-negativity, zero for identical colours, contrast range and threshold predicates.",
+        "Trusted: z3; the CIEDE2000 transcription (symx/src/reference/ciede2000.rs). The full CIEDE2000 differential and symmetry are "
+        "thorough-tier and claimed only when discharged (DESIGN.md section 9)."),
     "C14": sprop(
         "Symbolic execution of the real RGB<->XYZ, XYZ->Lab/Luv/Oklab and chromatic-adaptation code for every RGB standard / white point "
         "pair; z3 decides, for ALL greys / colours in the stated boxes, that white maps to the white point, neutrals stay neutral, the "
